@@ -123,7 +123,6 @@ func init() {
 	simple("(*os.File).Fd", "File.Fd: total")
 	simple("(*os.File).Close", "File.Close: nil or an error")
 	simple("crypto/x509.ParseCertificate", "x509.ParseCertificate: a non-nil certificate or an error; never panics; allocation linear in the input (assumed)", optErrOrVal)
-	simple("crypto/x509.ParseCertificates", "x509.ParseCertificates: certificates or an error; never panics; allocation linear in the input (assumed)", optErrOrVal)
 	simple("crypto/x509.ParsePKCS8PrivateKey", "x509.ParsePKCS8PrivateKey: a key or an error; never panics", optErrOrVal)
 	simple("crypto/x509.MarshalPKCS8PrivateKey", "x509.MarshalPKCS8PrivateKey: bytes or an error", optErrOrVal)
 	simple("crypto/rand.Int", "rand.Int: a non-nil integer or an error", optErrOrVal)
